@@ -13,6 +13,7 @@
 #include "QXmppServerExtension.h"
 #include "QXmppServerPlugin.h"
 #include "QXmppUtils.h"
+#include "QXmppUtils_p.h"
 
 #include "StringLiterals.h"
 
@@ -32,7 +33,7 @@ static void helperToXmlAddDomElement(QXmlStreamWriter *stream, const QDomElement
     /* attributes */
     QString xmlns = element.namespaceURI();
     if (!xmlns.isEmpty() && !omitNamespaces.contains(xmlns)) {
-        stream->writeDefaultNamespace(xmlns);
+        QXmpp::Private::writeDefaultNamespaceEscaped(stream, xmlns);
     }
     QDomNamedNodeMap attrs = element.attributes();
     for (int i = 0; i < attrs.size(); i++) {
